@@ -194,9 +194,16 @@ SerializableOptionalEvent = Annotated[
 def _serialize_exception(exc: Exception) -> dict[str, Any]:
     exc_type = type(exc)
     qualified_name = f"{exc_type.__module__}.{exc_type.__qualname__}"
+    # Deserialization rebuilds the exception as ``exc_type(message)``. Use the
+    # original single string argument when there is one: ``str(KeyError("k"))``
+    # is ``"'k'"``, which would gain another pair of quotes on every round trip.
+    if len(exc.args) == 1 and isinstance(exc.args[0], str):
+        message = exc.args[0]
+    else:
+        message = str(exc)
     return {
         "exception_type": qualified_name,
-        "exception_message": str(exc),
+        "exception_message": message,
     }
 
 
@@ -299,13 +306,18 @@ class StopEvent(Event):
     @model_serializer(mode="wrap")
     def custom_model_dump(self, handler: Any) -> dict[str, Any]:
         data = handler(self)
+        # this serializer replaces DictLikeModel's: keep the dynamic fields too
+        if self._data:
+            data["_data"] = self._data
         # include _result in serialization for base StopEvent
         if self._result is not None:
             data["result"] = self._result
         return data
 
     def __repr__(self) -> str:
-        dict_items = {**self._data, **self.model_dump()}
+        dumped = self.model_dump()
+        dumped.pop("_data", None)  # already merged in as individual items
+        dict_items = {**self._data, **dumped}
         # Format as key=value pairs
         parts = [f"{k}={v!r}" for k, v in dict_items.items()]
         dict_str = ", ".join(parts)
